@@ -10,7 +10,8 @@
   loop and every stopping rule:
     * `_tp_proj` returns a matrix whose partial trace is the identity (`tp_proj_trace_preserving`),
       changes nothing on a matrix that already has this property (`tp_proj_fixes_trace_preserving`,
-      hence idempotent) and keeps Hermitian matrices Hermitian (`tp_proj_keeps_hermitian`);
+      hence idempotent), keeps Hermitian matrices Hermitian (`tp_proj_keeps_hermitian`) and is the
+      ORTHOGONAL (Frobenius-nearest) projection onto that set (`tp_proj_orthogonal`);
     * `_cp_proj` returns a positive semi-definite matrix whatever `eigh` returned
       (`cp_proj_positive`); with the documented contract of `eigh` the part removed is negative
       semi-definite and orthogonal to the part kept (`cp_proj_moreau`: the result is the nearest
@@ -62,6 +63,17 @@ theorem tp_proj_keeps_hermitian (d : Nat) (A : M K) (hA : A.n = d * d)
     {a b c e : Nat} (ha : a < d) (hb : b < d) (hc : c < d) (he : e < d) :
     star ((tpProj d A).get (a * d + b) (c * d + e)) = (tpProj d A).get (c * d + e) (a * d + b) :=
   tpProj_hermitian d A hA hH ha hb hc he
+
+/-- `_tp_proj` is the ORTHOGONAL projection onto the trace-preserving matrices: for every
+trace-preserving `T` the part removed, `A − _tp_proj(A)`, is Frobenius-orthogonal to
+`T − _tp_proj(A)` (so `_tp_proj(A)` is the trace-preserving matrix nearest to `A`, which is what
+Dykstra's iteration in `_cptp_proj` requires of its two projections). -/
+theorem tp_proj_orthogonal (d : Nat) (A T : M K) (hA : A.n = d * d) (hT : T.n = d * d)
+    (hd : (d : K) ≠ 0)
+    (hTP : ∀ a c, a < d → c < d → (partialTrace d T).get a c = if a = c then 1 else 0) :
+    ∑ r ∈ Finset.range (d * d), ∑ k ∈ Finset.range (d * d),
+        star ((msub A (tpProj d A)).get r k) * (msub T (tpProj d A)).get r k = 0 :=
+  tpProj_orthogonal d A T hA hT hd hTP
 
 /-- the TP defect of `choi + α·(proj − choi)` is the convex combination of the two defects -/
 theorem pgdb_tp_defect_affine (d : Nat) (A B : M K) (alpha : K) (hA : A.n = d * d) (hB : B.n = d * d)
